@@ -32,8 +32,8 @@ def main():
         # 1. demo passes without the change
         ok_without = True
         for d in demos:
-            r = sh("cargo test --offline --test %s 2>&1 | grep -E '^test result|error' " % d[:-3], cwd=scratch)
-            ran.append("without change: cargo test --offline --test %s -> %s" % (d[:-3], r.stdout.strip().replace("\n", " | ")))
+            r = sh("cargo test --offline --features nb,embedded-hal-02 --test %s 2>&1 | grep -E '^test result|error' " % d[:-3], cwd=scratch)
+            ran.append("without change: cargo test --offline --features nb,embedded-hal-02 --test %s -> %s" % (d[:-3], r.stdout.strip().replace("\n", " | ")))
             if "test result: ok" not in r.stdout or "FAILED" in r.stdout:
                 ok_without = False
         # 2. with the change
@@ -43,13 +43,18 @@ def main():
             print("patch does not apply to /repo HEAD:", r.stdout); return 1
         r = sh("cargo test --workspace --no-fail-fast --offline 2>&1", cwd=scratch)
         out = r.stdout
+        # the demonstration may need the optional front-ends (nb / embedded-hal): run it with them as well
+        r2 = sh("cargo test --no-fail-fast --offline --features nb,embedded-hal-02 2>&1", cwd=scratch)
+        out2 = r2.stdout
         compiled = "error: could not compile" not in out
         # split per test binary
         fails = re.findall(r"^test (\S+) \.\.\. FAILED", out, re.M)
         demo_fail = False
         other_fail = []
         # which binaries failed
-        failed_bins = re.findall(r"error: test failed, to rerun pass `(.*?)`", out)
+        failed_bins = re.findall(r"error: test failed, to rerun pass `(.*?)`", out) + re.findall(r"error: test failed, to rerun pass `(.*?)`", out2)
+        compiled = compiled and "error: could not compile" not in out2
+        fails += re.findall(r"^test (\S+) \.\.\. FAILED", out2, re.M)
         for fb in failed_bins:
             if any(d[:-3] in fb for d in demos):
                 demo_fail = True
